@@ -14,7 +14,9 @@
   consulted only for a query of the indexed dimension) and B2 (the collection
   pre-filter scores with the collection's metric); the code before those fixes is
   kept as `stepOld`, `searchCoreOld`, `searchCollFilteredOld`, ... for the
-  regression witnesses.
+  regression witnesses.  `searchWithHnsw` is the explicit-index path with 733b279c (the query's
+  dimension is checked against the index), `searchWithHnswOld` the code before it.  The
+  storage-key layer (key prefixes, cache slot names; fix 4fa63773) is in `NsModel.lean`.
 
   Vectors are lists of `Int`: the correspondence harness drives the real engine
   with small integer-valued `f32` vectors, on which every `f32` product/sum the
@@ -655,6 +657,37 @@ def postFilterCands (snap : Snap) (cur : Items) (ann : List (Nat × Score)) (cut
 def postFilterAnn (snap : Snap) (cur : Items) (ann : List (Nat × Score)) (cut k : Nat) (f : Filter) :
     List Cand :=
   ((postFilterCands snap cur ann cut f).filter (·.pass)).take k
+
+/-! ## 5b. The explicit-index entry points -/
+
+/-- `build_hnsw_index` (lib.rs:2392-2484): all vectors must have the first one's dimension; node
+    id `i` ↦ `(key_mapping[i], vector)`.  Nothing is cached. -/
+def buildIndex (st : State) : Option Snap :=
+  if sameDims st.dflt.items then some (snapOf st.dflt.items) else none
+
+/-- `search_with_hnsw(index, key_mapping, query, top_k)` (lib.rs:2530-2575, with 733b279c) for an
+    index over `snap`: the query is compared with `index.get_vector(0)` and refused with
+    `DimensionMismatch` when the lengths differ; otherwise `index.search` is consulted and its
+    node ids mapped through `key_mapping`.  (There is no zero-query shortcut on this path.)
+    `search_with_hnsw_and_metric` (lib.rs:2585-2653) has the same argument checks and the same
+    guard in front of `index.search`; its re-ranking under an `ExtendedDistanceMetric` is not
+    modelled. -/
+def searchWithHnsw (snap : Snap) (q : List Int) (k : Nat) : SearchOut :=
+  if q.isEmpty then .err .emptyVector
+  else if k = 0 then .err .invalidTopK
+  else
+    match snap with
+    | e :: _ =>
+      if e.2.length != q.length then .err .dimMismatch
+      else .viaIndex snap (rank .cosine (snapCands snap [] q none)) k k
+    | [] => .viaIndex [] [] k k
+
+/-- the same BEFORE 733b279c: the query went to `index.search` unchecked -/
+def searchWithHnswOld (snap : Snap) (q : List Int) (k : Nat) : SearchOut :=
+  if q.isEmpty then .err .emptyVector
+  else if k = 0 then .err .invalidTopK
+  else if snap.any (fun e => e.2.length != q.length) then .indexDimMismatch snap
+  else .viaIndex snap (rank .cosine (snapCands snap [] q none)) k k
 
 /-! ## 6. Reads -/
 
